@@ -239,15 +239,15 @@ Proof. exact pprint_barred_roundtrip. Qed.
 Print Assumptions C01_pprint_barred_roundtrip.
 
 (* ---- Markdown ---- *)
-(* the streaming writer (--omd) read back with --imd, any dedupe / ragged setting, LF or CRLF, heterogeneity included (a change
+(* the streaming writer (--omd) and the --omd-aligned writer (for EVERY display-width function w) read back with --imd, any dedupe / ragged setting, LF or CRLF, heterogeneity included (a change
    of keys writes a blank line and a new header; the reader takes only the second line of a block for the separator line).
    Domain (wf_markdown, boolean): records non-empty with unique keys; cells free of LF and unchanged by strings.TrimSpace;
    keys free of "|" (keys are not escaped) and "," and not the single key "".  VALUES may contain "|" (written "\|" and
    unescaped by the reader), backslashes, rows of dashes or empty cells -- the two former findings are inside the domain *)
 Theorem C01_markdown_roundtrip :
-  forall w crlf dedupe ragged recs, wf_markdown recs = true ->
-  read_markdown false dedupe ragged (write_markdown w false crlf recs) = Some recs.
-Proof. exact markdown_roundtrip_streaming. Qed.
+  forall w aligned crlf dedupe ragged recs, wf_markdown recs = true ->
+  read_markdown false dedupe ragged (write_markdown w aligned crlf recs) = Some recs.
+Proof. exact markdown_roundtrip. Qed.
 Print Assumptions C01_markdown_roundtrip.
 
 Example C01_nonvacuous_markdown :
